@@ -470,11 +470,12 @@ Family == <<
 
 NamesQuick == {NameRec("a", <<>>), NameRec("A", <<>>), NameRec("a", <<1>>),
                NameRec("b", <<>>), NameRec("B", <<>>)}
-NamesThorough == NamesQuick \cup {NameRec("A", <<1>>), NameRec("b", <<1>>)}
+NamesThorough == NamesQuick \cup {NameRec("A", <<1>>)}
 TagsDef == {"t1", "t2"}
 FindRootsDef == {NameRec("a", <<>>), NameRec("B", <<>>)}
 InitIdsQuick == {2, 3}
 InitIdsAll == 1..Len(Family)
+InitIdsThorough == 2..Len(Family)     \* (the empty state is left to -simulate)
 InitIdsDev == {2}
 
 \* ------------------------------------------------------------ the machine
